@@ -607,7 +607,21 @@ KNOWN_CLASSES = {
 }
 
 
-def known_class(s):
+# scripts that ot_shaper.rs gives to the Thai, Hangul, Indic, Khmer, Myanmar or Universal shaper (ISO 15924 tags)
+SYLLABIC_SCRIPTS = set("""Thai Laoo Hang Beng Deva Gujr Guru Knda Mlym Orya Taml Telu Khmr Mymr Qaag Tibt Mong Sinh Buhd Hano Tglg
+Tagb Limb Tale Bugi Khar Sylo Tfng Bali Nkoo Phag Cham Kali Lepc Rjng Saur Sund Egyp Java Kthi Mtei Lana Tavt Batk Brah Mand Cakm
+Plrd Shrd Takr Dupl Gran Khoj Sind Mahj Mani Modi Hmng Phlp Sidd Tirh Ahom Mult Adlm Bhks Marc Newa Gonm Soyo Zanb Dogr Gong Rohg
+Maka Medf Sogo Sogd Elym Nand Hmnp Wcho Chrs Diak Kits Yezi Cpmn Ougr Tnsa Toto Vith Kawi Nagm Gara Gukh Krai Onao Sunu Todr
+Tutg""".split())
+
+KNOWN_CLASSES["syllabic-concat"] = (
+    "the Thai (SARA AM), Hangul (jamo composition), Indic, Khmer, Myanmar and Universal shapers flag the inside of a syllable "
+    "UNSAFE_TO_BREAK but never call unsafe_to_concat at its edges (no call site in ot_shaper_{thai,hangul,indic,khmer,myanmar,use}.rs, "
+    "same upstream): joining two UNSAFE_TO_CONCAT-free segments can form a new syllable "
+    "(e.g. Thai <0E4C | 0E01 | 0E33> -> <0E4C,0E33>; Devanagari <091F,094D,0930,094D | 0020 | 091F,094D,0930>)")
+
+
+def known_class(s, kind="break"):
     """signature of a documented finding class this shaping falls into, or None (= anything that differs is new)"""
     if s.g["aat"]:
         return "aat"
@@ -617,6 +631,8 @@ def known_class(s):
         return "repeated-clusters"
     if any(ord(c) in PCM for c in s.text):
         return "arabic-pcm-stch"
+    if kind == "concat" and (s.script or "").capitalize() in SYLLABIC_SCRIPTS:
+        return "syllabic-concat"
     return None
 
 
